@@ -306,8 +306,11 @@ class SymbolicExpression(Generic[T], ABC):
         """
         conditions_root = self._root_
         while conditions_root._child_ is not None:
+            came_from = conditions_root
             conditions_root = conditions_root._child_
-            if isinstance(conditions_root._parent_, QueryObjectDescriptor):
+            # decided by the way down, not by asking the node: `_parent_` of a node that has been evaluated answers with
+            # the parent of that evaluation, which may belong to another query
+            if isinstance(came_from, QueryObjectDescriptor):
                 break
         return conditions_root
 
